@@ -143,6 +143,13 @@ func loadKnown(dir string) *KnownFindings {
 	return k
 }
 
+// LoadKnownSigs makes the known signatures available to runs (they are counted, not fatal).
+func LoadKnownSigs(dir string) {
+	for _, f := range loadKnown(dir).Findings {
+		KnownSigs[f.Signature] = true
+	}
+}
+
 type ReplayFile struct {
 	Property  string            `json:"property"`
 	Engine    string            `json:"engine"`
@@ -468,6 +475,12 @@ func BatchMain(self, verifDir string, p *Prop, tier string) int {
 		closer()
 	}
 
+	for _, f := range known.Findings {
+		if f.Property == p.ID && stats["known."+f.Signature] > 0 {
+			fmt.Printf("KNOWN-FINDING: property=%s %s (signature %s, seen %d times in this batch)\n", p.ID, f.What, f.Signature, stats["known."+f.Signature])
+			knownSeen = append(knownSeen, f.Signature)
+		}
+	}
 	wall := time.Since(t0).Seconds()
 	// vacuity guard
 	if exit == 0 && p.Vacuity != nil {
